@@ -178,15 +178,18 @@ def evaluate(case):
     comp_ret = max([o["ret_seq"] or 0 for o in comp_ops] or [0])
     # (2) state samples
     samples = [(o["call_seq"], o["result"][1]) for o in ops if o["op"][0] == "state" and o["op"][1] == "S" and o["result"][0] == "ok"]
+    # (samples taken by overlapping ops are unordered: only a sample whose op began after an earlier one returned is "later")
+    ssorted = sorted([o for o in ops if o["op"][0] == "state" and o["op"][1] == "S" and o["result"][0] == "ok"], key=lambda o: o["ret_seq"])
     first_done = None
-    for seq, st in samples:
+    for o in ssorted:
+        st = o["result"][1]
         if st["done"]:
             key = (st["cancelled"], repr(st.get("value")), repr(st.get("exc")))
             if first_done is None:
-                first_done = (seq, key, st)
+                first_done = (o["ret_seq"], key, st)
             elif key != first_done[1]:
                 bad("terminal-outcome-changed", first=first_done[2], later=st)
-        elif first_done is not None:
+        elif first_done is not None and o["call_seq"] > first_done[0]:
             bad("done-then-not-done", first=first_done[2], later=st)
     final = samples[-1][1] if samples else None
     terminal = bool(final and final["done"])
